@@ -24,6 +24,9 @@ func genC08(t *rapid.T) *CaseC08 {
 	b := genBoxAt(t, "b", h, v)
 	c.Boxes = []ref.Box{b}
 	n := rapid.IntRange(1, 5).Draw(t, "n")
+	if rapid.IntRange(0, 59).Draw(t, "long") == 0 {
+		n = rapid.SampledFrom([]int{33, 64, 65, 130}).Draw(t, "nLong")
+	}
 	for len(c.Boxes) < n {
 		base := c.Boxes[rapid.IntRange(0, len(c.Boxes)-1).Draw(t, "base")]
 		switch rapid.IntRange(0, 3).Draw(t, "rel") {
@@ -37,6 +40,9 @@ func genC08(t *rapid.T) *CaseC08 {
 	}
 	c.HL = rapid.Int64Range(0, 4).Draw(t, "hl")
 	c.VL = rapid.Int64Range(0, 4).Draw(t, "vl")
+	if n > 5 {
+		c.HL, c.VL = min64(c.HL, 1), min64(c.VL, 1)
+	}
 	return c
 }
 
@@ -56,6 +62,9 @@ func classifyC08(c *CaseC08) (bool, []string) {
 	if len(c.Boxes) >= 2 {
 		nt = true
 		cl = append(cl, "list>=2")
+	}
+	if len(c.Boxes) >= 33 {
+		cl = append(cl, "long-list")
 	}
 	if 2*c.HL+1 > n {
 		cl = append(cl, "stencil-wider-than-grid")
